@@ -259,6 +259,14 @@ def call_model(I, fn, args, kwargs):
         x = args[0]
         if isinstance(x, FD):
             return mk_fd_apply(I, lambda v: round(v, *args[1:]), x)
+        if len(args) == 1 and isinstance(x, Sym):
+            if x.kind in ("int", "bool"):
+                return Sym(as_int(x), "int")
+            # round-half-to-even on the real model
+            f = z3.ToInt(x.z)
+            d = x.z - z3.ToReal(f)
+            half = z3.RealVal("1/2")
+            return Sym(z3.If(d < half, f, z3.If(d > half, f + 1, z3.If(f % 2 == 0, f, f + 1))), "int")
         raise Unsupported("round(symbolic real)")
     if fn is math.floor or fn is math.ceil or fn is np.floor or fn is np.ceil:
         (x,) = args
@@ -340,6 +348,9 @@ def _casewise(I, fn, args):
 
 def call_method_model(I, r, name, args, kwargs):
     if isinstance(r, SymArray):
+        if name in ("sum", "mean", "min", "max", "any", "all", "argmin", "argmax") and not args and not kwargs:
+            fn = {"sum": np.sum, "mean": np.mean, "min": min, "max": max, "any": any, "all": all, "argmin": np.argmin, "argmax": np.argmax}[name]
+            return call_model(I, fn, [r], {})
         if name == "tolist":
             return list(r.items)
         if name == "copy":
